@@ -15,7 +15,9 @@ kind "term" / "trunc" = every agent is terminated / truncated (time limit) at th
 "mixed" = agent 0 terminated and the others truncated, "mixed2" = the other way round.  The observation of agent a
 after t steps of episode number ep is [ep/1024, t/64, i/8, a/4] (exact in float32), the episode number counts the
 reset() calls of the sub-environment, so the observation itself says which episode it belongs to.
-Single-agent: gymnasium SyncVectorEnv(autoreset_mode=SAME_STEP); multi-agent: AsyncPettingZooVecEnv.
+Single-agent: gymnasium SyncVectorEnv(autoreset_mode=SAME_STEP); multi-agent: AsyncPettingZooVecEnv, or (cfg "vec": False)
+the raw scripted ParallelEnv behind a thin logging wrapper: train_multi_agent_on_policy then takes its non-vectorised
+branch, in which the LOOP calls env.reset() inside the rollout when all agents are done (trace cfg mode = "loop").
 
 One trace per training run:
   reset  ep[e][a]                                   episode number of the observations returned by env.reset()
@@ -210,6 +212,48 @@ def make_multi_vec(rec, scripts, agent_names):
     return env
 
 
+def make_multi_raw(rec, script, agent_names):
+    """The raw scripted ParallelEnv (one environment, no num_envs attribute) with its own step / reset logged."""
+    Env = _multi_env_cls()
+    inner = Env(0, script, agent_names)
+
+    class Logged:
+        metadata = inner.metadata
+        render_mode = None
+        possible_agents = list(agent_names)
+
+        @property
+        def agents(self):
+            return inner.agents
+
+        def observation_space(self, agent):
+            return inner.observation_space(agent)
+
+        def action_space(self, agent):
+            return inner.action_space(agent)
+
+        def step(self, actions):
+            out = inner.step(actions)
+            if not rec.in_test:
+                obs, _, term, trunc, _ = out
+                ids = [obs_ident(obs[ag]) for ag in agent_names]
+                rec.ev.append({"op": "step", "term": [[int(bool(term[ag])) for ag in agent_names]],
+                               "trunc": [[int(bool(trunc[ag])) for ag in agent_names]],
+                               "ep": [[x[0] for x in ids]], "k": [[x[1] for x in ids]]})
+            return out
+
+        def reset(self, *a, **kw):
+            out = inner.reset(*a, **kw)
+            if not rec.in_test:
+                rec.ev.append({"op": "reset", "ep": [[obs_ident(out[0][ag])[0] for ag in agent_names]]})
+            return out
+
+        def close(self):
+            pass
+
+    return Logged()
+
+
 # ============================================================================================ spies
 def _flag(x):
     x = float(np.asarray(x).reshape(-1)[0]) if np.asarray(x).size == 1 else float("nan")
@@ -225,8 +269,9 @@ def _flags_row(arr, E):
 
 def _idents(arr, E):
     a = np.asarray(arr.detach().cpu().numpy() if isinstance(arr, torch.Tensor) else arr)
-    if a.shape != (E, 4):
+    if a.size != E * 4:
         return [[-1, -1] for _ in range(E)]
+    a = a.reshape(E, 4)          # a non-vectorised loop hands observations without the environment axis
     return [obs_ident(a[e]) for e in range(E)]
 
 
@@ -281,7 +326,7 @@ def _where(tb):
 
 # ============================================================================================ one run
 def run(cfg):
-    """cfg: loop ("ppo" | "ippo"), E, seed, learn_steps (one per population member), rolls (rollouts per turn), gens,
+    """cfg: loop ("ppo" | "ippo"), vec (default True; False: IPPO on the raw ParallelEnv, E = 1), E, seed, learn_steps (one per population member), rolls (rollouts per turn), gens,
     agents (ippo: agent names), autoreset ("same"; "next" only for experiments).  Returns {"cfg", "ev"}."""
     warnings.filterwarnings("ignore")
     import gymnasium
@@ -290,6 +335,9 @@ def run(cfg):
     from .. import zoo
     loop, E, seed = cfg["loop"], int(cfg["E"]), int(cfg["seed"])
     multi = loop == "ippo"
+    vec = bool(cfg.get("vec", True))
+    if not vec:
+        assert multi and E == 1, "non-vectorised runs: IPPO on one raw ParallelEnv"
     names = list(cfg.get("agents") or ["agent_0", "agent_1"]) if multi else None
     rng = random.Random(seed * 7919 + (1 if multi else 0))
     scripts = cfg.get("scripts") or make_scripts(rng, E, multi)
@@ -297,7 +345,8 @@ def run(cfg):
     rec = Rec()
     out = {"cfg": {"loop": loop, "E": E, "A": len(names) if multi else 1, "seed": seed, "learn_steps": learn_steps,
                    "rolls": int(cfg["rolls"]), "gens": int(cfg["gens"]), "agents": names or [],
-                   "scripts": [[list(x) for x in s] for s in scripts], "autoreset": cfg.get("autoreset", "same")},
+                   "scripts": [[list(x) for x in s] for s in scripts], "autoreset": cfg.get("autoreset", "same"),
+                   "vec": vec, "mode": "auto" if vec else "loop"},
            "ev": rec.ev}
     env = None
     zoo.seed_all(seed)
@@ -307,10 +356,10 @@ def run(cfg):
         evo_steps = int(cfg["rolls"]) * max(learn_steps)
         per_gen = [(-(evo_steps // -ls)) * (-(ls // -E)) * E for ls in learn_steps]
         if multi:
-            env = make_multi_vec(rec, scripts, names)
+            env = make_multi_vec(rec, scripts, names) if vec else make_multi_raw(rec, scripts[0], names)
             from agilerl.algorithms.ippo import IPPO
-            osp = [env.single_observation_space(a) for a in names]
-            asp = [env.single_action_space(a) for a in names]
+            osp = [(env.single_observation_space(a) if vec else env.observation_space(a)) for a in names]
+            asp = [(env.single_action_space(a) if vec else env.action_space(a)) for a in names]
             pop = [IPPO(osp, asp, agent_ids=names, index=i, net_config=NET, batch_size=8, lr=1e-3, update_epochs=1, learn_step=ls)
                    for i, ls in enumerate(learn_steps)]
             max_steps = int(cfg["gens"]) * sum(per_gen) - 1           # loop condition: sum of the members' steps < max_steps
@@ -351,14 +400,20 @@ def run(cfg):
 def stats(trace):
     """what kinds of episode ends the recorded rollouts contain (vacuity guard of the stage)"""
     s = {"learn": 0, "step": 0, "term_inner": 0, "trunc_inner": 0, "term_last": 0, "trunc_last": 0, "cont_last": 0,
-         "envs_differ": 0, "agents_differ": 0, "carry": 0}
+         "envs_differ": 0, "agents_differ": 0, "carry": 0, "loop_reset": 0, "loop_reset_inner": 0}
     steps = []
     prev_last_ended = False
+    pending = False          # a reset by the loop inside the running rollout (non-vectorised runs) not yet followed by a step
     for e in trace["ev"]:
-        if e["op"] == "reset":
+        if e["op"] == "reset" and steps and trace["cfg"].get("mode") == "loop":
+            s["loop_reset"] += 1
+            pending = True
+        elif e["op"] == "reset":
             steps = []
             prev_last_ended = False
         elif e["op"] == "step":
+            s["loop_reset_inner"] += int(pending)          # the rollout goes on after the loop's reset
+            pending = False
             steps.append(e)
             s["step"] += 1
             ended = [[bool(t or u) for t, u in zip(tr, ur)] for tr, ur in zip(e["term"], e["trunc"])]
@@ -368,6 +423,7 @@ def stats(trace):
                 s["agents_differ"] += 1
         elif e["op"] == "learn":
             s["learn"] += 1
+            pending = False
             if prev_last_ended:
                 s["carry"] += 1          # a rollout that begins right after an episode end (flag of the first row is not used)
             for j, st in enumerate(steps):
